@@ -534,6 +534,36 @@ def build_paths(ctx, kms: list, rng: random.Random, families_per_type: int, with
         p = Path(f"pfr-cmpa:{t}", "pfr_rotkh", t, pfr_fn, all_forms, note=fam)
         p.post = pfr_post
         paths.append(p)
+        if with_cli and rng.random() < 0.12:  # (each call of the tool costs ~0.4 s)
+            def pfr_cli_fn(vals, fam=fam):
+                # `pfr generate-binary -sf k0 -sf k1 ...`: the keys take the table slots in the order of the command line
+                from click.testing import CliRunner
+                from spsdk.apps import pfr as pfr_app
+
+                d = os.path.join(ctx.workdir, "pfr_cli")
+                os.makedirs(d, exist_ok=True)
+                tpl, out = os.path.join(d, f"cmpa_{fam}.yaml"), os.path.join(d, "cmpa.bin")
+                if not os.path.exists(tpl):  # the template of a family is made once per worker
+                    r = CliRunner().invoke(pfr_app.main, ["get-template", "-f", fam, "-t", "cmpa", "-o", tpl, "--force"], catch_exceptions=True)
+                    if r.exit_code != 0:
+                        raise core.Inconclusive(f"pfr get-template failed for {fam}: {(r.output or '')[-200:]}")
+                args = ["generate-binary", "-c", tpl, "-o", out, "--ignore"] + [a for v in vals for a in ("-sf", v)]
+                r = CliRunner().invoke(pfr_app.main, args, catch_exceptions=True)
+                if r.exit_code != 0:
+                    if r.exception is not None and not isinstance(r.exception, SystemExit) and not core.is_refusal(r.exception):
+                        raise r.exception
+                    from spsdk.exceptions import SPSDKError
+
+                    raise SPSDKError(f"pfr generate-binary exit {r.exit_code}: {(r.output or '')[-200:]}")
+                reg = CMPA(family=fam).registers.find_reg("ROTKH")
+                with open(out, "rb") as f:
+                    blob = f.read()
+                ctx.count("pfr_cli_generate_binary")
+                return blob[reg.offset:reg.offset + reg.width // 8], None
+
+            pc = Path(f"cli-pfr-cmpa:{t}", "cli", t, pfr_cli_fn, [f for f in all_forms if f.endswith(":path")][:3], note=fam)
+            pc.post = pfr_post
+            paths.append(pc)
 
     # debug-credential RoT meta (configuration = file paths)
     path_forms = [f for f in all_forms if f.endswith(":path")]
